@@ -698,6 +698,12 @@ pub fn long_list_check(rep: &Reporter, p: &Pos, n: &AtomicU64) {
         None => return,
     };
     for len in [5usize, 6, 9, 16, 41] {
+        // the list entry points make and take back moves (legality probe, roll-back); taking back is
+        // specified for half-move clocks 0..4095 (C03, the width of the undo field), so a list stays
+        // inside that domain
+        if p.half as usize + len + 1 > 4095 {
+            continue;
+        }
         let mut q = p.clone();
         let mut list: Vec<String> = Vec::new();
         for i in 0..len {
